@@ -22,7 +22,9 @@ macro_rules! opaque {
         pub struct $n { _p: u8 }
     )* } }
 }
-opaque!(DeliveryTag, DeliveryState, ReceiverSettleMode, SerError);
+opaque!(DeliveryTag, DeliveryState, ReceiverSettleMode, SerOther);
+/// serde_amqp::Error reduced to the variant the encoder constructs itself (R11)
+pub enum SerError { InvalidLength, Other(SerOther) }
 pub struct Handle(pub u32);
 
 //@@ type file=fe2o3-amqp-types/src/performatives/transfer.rs kind=struct name=Transfer
@@ -314,9 +316,9 @@ impl FrameEncoder {
 //@@ subst `use serde_amqp::ser::Serializer;` => `` rule=R6
 //@@ subst `&buf[..]` => `buf.as_slice()` rule=R22
 //@@ spec
-    requires
-        fits(self.max_frame_body_size as int, transfer),     // ASSUMED: the performative alone is smaller than the frame body (512-byte minimum frame vs. a transfer performative with a <=32 byte tag)
+    // no precondition on the size of the performative: a transfer whose performative alone fills the frame body (a long delivery state: an error description, a peer-chosen txn-id) must be REFUSED, not panic the connection engine (`max - len` underflow) or loop for ever cutting zero-length chunks   [C15.encode.oversized-performative-refused]
     ensures
+        r is Ok && enc(transfer).len() + payload@.len() > self.max_frame_body_size ==> fits(self.max_frame_body_size as int, transfer),   // [C15.encode.oversized-performative-refused]
         r is Ok ==> final(dst)@ == old(dst)@ + flatten(channel, expected(self.max_frame_body_size as int, transfer, payload@)),   // [C06.split.exact] the bytes appended are exactly the frames of `expected`: header + performative + chunk each [C01.split.payload-preserved] [C11.split.ids-first-frame-only]
 //@@ entry
         let ghost t0 = transfer;
